@@ -1,4 +1,5 @@
 import OrsoVerif.Model.Display
+import OrsoVerif.Lemmas.DisplaySpec
 /-! Helper lemmas for C18, part 2: printed width through `trunc_printable`, pads, cells. -/
 namespace Display
 
@@ -79,17 +80,17 @@ theorem pstr_spaces (n : Nat) : PStr (spaces n) := by
 characters have width 1; the result leaves no escape open. -/
 theorem truncGo_full (cw : Char → Nat) (width : Nat) (l : Str) (hl : ∀ c ∈ l, Good cw c)
     (off : Nat) (ign : Bool) (ho : off < width) :
-    scan ign (truncGo cw width true l off ign) = (width - off, false) := by
+    scan ign (truncGo specArith cw width true l off ign) = (width - off, false) := by
   induction l generalizing off ign with
   | nil =>
-    simp only [truncGo, if_true]
+    simp only [truncGo, spec_truncPad, if_true]
     rw [scan_append, tokens_scan T_OFF (by simp [usedTokens]) ign]
     have := scan_noesc (spaces (width - off)) (fun c hc => by simp [spaces] at hc; rw [hc.2]; decide)
     rw [this]; simp [spaces]
   | cons c cs ih =>
     obtain ⟨h1, h2, h3⟩ := hl c (by simp)
     have hcs : ∀ c ∈ cs, Good cw c := fun c hc => hl c (by simp [hc])
-    simp only [truncGo, h1, h2, if_false]
+    simp only [truncGo, spec_truncStop', h1, h2, if_false]
     cases hi : (ign || isEsc c) with
     | false =>
       have hne : isEsc c = false := by cases ign <;> simp_all
@@ -121,7 +122,7 @@ theorem truncGo_full (cw : Char → Nat) (width : Nat) (l : Str) (hl : ∀ c ∈
 `min (printed width of the line) (room left)`, and no escape is left open. -/
 theorem truncGo_line (cw : Char → Nat) (width : Nat) (l : Str) (hl : ∀ c ∈ l, Good cw c)
     (off : Nat) (ign : Bool) (ho : off < width) :
-    scan ign (truncGo cw width false l off ign) = (min (scan ign l).1 (width - off), false) := by
+    scan ign (truncGo specArith cw width false l off ign) = (min (scan ign l).1 (width - off), false) := by
   induction l generalizing off ign with
   | nil =>
     simp only [truncGo, Bool.false_eq_true, if_false, List.append_nil]
@@ -130,7 +131,7 @@ theorem truncGo_line (cw : Char → Nat) (width : Nat) (l : Str) (hl : ∀ c ∈
   | cons c cs ih =>
     obtain ⟨h1, h2, h3⟩ := hl c (by simp)
     have hcs : ∀ c ∈ cs, Good cw c := fun c hc => hl c (by simp [hc])
-    simp only [truncGo, h1, h2, if_false]
+    simp only [truncGo, spec_truncStop', h1, h2, if_false]
     cases hi : (ign || isEsc c) with
     | false =>
       have hne : isEsc c = false := by cases ign <;> simp_all
